@@ -679,6 +679,7 @@ def generate():
     text = f'''(* GENERATED by translate/skeleton.py from {REPO}/homonim - do not edit.
    Concurrency / exception / file-protocol skeleton of the current source. *)
 From Coq Require Import List Bool.
+From HVgen Require NormalFormCases.     (* the source was read through the normal form that file ties to its proved model *)
 From HV Require Import Conc.Sem Conc.IR Conc.Coord.
 Import ListNotations.
 
